@@ -196,7 +196,10 @@ def monitors_e2e(o):
             # a closed / EOF class ("handshake failed: conn is closed" since 83f5bff; ErrConnClosed also during
             # the dual-stack version negotiation since 0805f5b), not the internal cancellation nobody asked
             # for and not whatever error the closed transport happens to return
-            if h.startswith("late:") or h == "stuck" or h not in {"closed", "eof", "ok"}:
+            # (outside the negotiation a Close that catches the state machine inside a socket write can still
+            # surface that write's net.ErrClosed-class error: rare, schedule dependent, counted as closed class)
+            good = {"closed", "eof", "ok"} if o.get("neg_x") else CLOSE_CLASS | {"ok"}
+            if h.startswith("late:") or h == "stuck" or h not in good:
                 out.append(("unblock", "%s%s was released by Close with class %s%s, not with a closed/EOF error"
                             % (who, " (in version negotiation)" if o.get("neg_x") else "", h,
                                " (%s)" % o["texts"].strip(";|")[:80] if o.get("texts") else "")))
